@@ -198,7 +198,7 @@ P_GENERAL = dict()
 P_TOPICS = dict(op_w={"register": 2, "append": 12, "import": 4, "remove": 4, "tick": 1, "gc": 3, "reopen": 1, "badctx": 0.2},
                 n_topics=9, p_nul=0.08, p_nul_head=0.3, p_import_collide=0.15)
 P_TTL = dict(op_w={"register": 1.5, "append": 12, "import": 2, "remove": 2, "tick": 5, "gc": 6, "reopen": 1, "badctx": 0.1},
-             n_topics=4, ttl_w={"-": 1, "forever": 1, "ephemeral": 2, "time": 5, "head": 5}, p_probe=0.5)
+             n_topics=4, ttl_w={"-": 1, "forever": 1, "ephemeral": 2, "time": 5, "head": 5}, p_probe=0.3, w_lazyread=4)
 P_EXPORT = dict(op_w={"register": 3, "append": 12, "import": 2, "remove": 3, "tick": 0.5, "gc": 2, "reopen": 0.5, "badctx": 0},
                 n_topics=5, p_nul=0.0, p_import_collide=0.0, p_import_reg=0.3,
                 ttl_w={"-": 3, "forever": 2, "ephemeral": 1, "head": 3})
@@ -406,6 +406,21 @@ def conc_run(pid, profile, oracle, nq, nt, steps=(20, 40, 80), stress=None):
             if bad:
                 ctx.violation(f"the implementation follows the refutation schedule {fn} ({w['what']}): " + "; ".join(bad)[:600],
                               dict(engine="C", schedule=lines, harness_output=r["out"][-40:], witness=fn))
+        # 1b. known findings are re-demonstrated by their schedule on every run
+        for kf in ctx.known:
+            if not kf["probe"].endswith(".json"):
+                continue
+            w = json.load(open(os.path.join(ROOT, kf["probe"])))
+            lines = E.model_labels(w["config"], w["labels"], w.get("locked", True))
+            r = E.run_schedule(lines, short_ms=250, long_ms=5000)
+            cons, _, final = E.observed(lines, r["out"])
+            got = [int(i.split("#")[1].split("@")[0]) for i in cons.get(kf["expect"]["follower"], []) if i.startswith("real#")]
+            if r["mismatch"] or not r["complete"]:
+                ctx.violation(f"known-finding probe {kf['key']}: the implementation does not follow the model's schedule: {str(r['mismatch'])[:300]}",
+                              dict(engine="C", schedule=lines, theorem_or_correspondence="engine C probe " + kf["probe"],
+                                   harness_output=r["out"][-30:]), no_input=True)
+            elif got == kf["expect"]["delivered"] and kf["expect"]["missing_rank"] not in got:
+                ctx.known_lines.append(f"KNOWN-FINDING: property={ctx.pid} {kf['key']}: {kf['what']}")
         # 2. random schedules of the model (fixed protocol): every predicted arrival / item / poll must match
         scheds, cfgs = [], []
         for i in range(n):
@@ -786,3 +801,88 @@ REGISTRY["C13"] = dict(
                "rejects before `handle` are never generated); follow streams are C03/C11's subject.",
     assumptions=["serde_json / base64 / url decoding are oracles: the generator names the malformation class, the implementation must classify it the same way"],
 )
+
+
+# ---------------------------------------------------------------------------------------------
+# Engine V (handlers)
+from . import svcengine as V
+
+
+def handler_run(pid, extra=None):
+    def run(ctx):
+        n = 10 if ctx.tier == "quick" else 200
+        seeds = [ctx.rnd.randrange(1, 10 ** 9) for _ in range(n)]
+        from concurrent.futures import ThreadPoolExecutor
+        with ThreadPoolExecutor(max_workers=6) as ex:
+            reps = list(ex.map(lambda sd: V.run_handler_scenario(sd, 14 if ctx.tier == "quick" else 24), seeds))
+        tot = dict(instances=0, triggers=0, outputs=0, invocations=0)
+        for sd, r in zip(seeds, reps):
+            for k in tot:
+                tot[k] += r[k]
+            for v in r["violations"]:
+                ctx.violation(v["what"][:700], dict(engine="V", seed=sd, script=v.get("script"), handler_id=v.get("handler_id")))
+        info = None
+        if extra:
+            info = extra(ctx)
+        ctx.coverage.update(dict(
+            evaluations=len(seeds), distinct_nontrivial=sum(1 for r in reps if r["invocations"] >= 3),
+            rule="one evaluation = one scenario on the real server (api + handler dispatcher, in-process, driven over HTTP): "
+                 "1-5 handler instances from a script DSL (guard topic, 0-3 buffered appends with --meta/--ttl/--context, return "
+                 "value of several kinds, failure before/between/after appends, resume head/tail/after-id, custom suffix/ttl, "
+                 "invalid scripts) in 1-3 contexts, triggers, bursts, re-registrations, .unregister, forged frames carrying the "
+                 "handler id; afterwards the OBSERVED stream of each handler's context is replayed through the extracted "
+                 "dispatch model and the frames it predicts must equal the frames the real handler appended (topic, context, "
+                 "handler_id, frame_id, ttl, content bytes from CAS, user meta, error flag, order); non-trivial = >= 3 closure invocations",
+            traces_validated_against_impl=len(seeds), handler_instances=tot["instances"], triggers=tot["triggers"],
+            handler_outputs_compared=tot["outputs"], closure_invocations_replayed=tot["invocations"], extra=info,
+            samples=[dict(seed=seeds[0], scripts=reps[0]["script_samples"])]))
+    return run
+
+
+def announce_probe(ctx):
+    r = V.announce_race(400)
+    if r.get("error"):
+        ctx.violation("announce/subscribe probe: " + r["error"], dict(engine="V", probe="announce_race"), no_input=True)
+    elif not r["first_served"] and r["control_served"]:
+        ctx.violation("a frame appended as soon as <name>.registered was visible was never processed by the (tail) handler: "
+                      "the handler was announced before it had subscribed (serve task held 400 ms at handler.serve.enter)",
+                      dict(engine="V", probe="announce_race", hook_sleep="handler.serve.enter:400", result=r))
+    return r
+
+
+def handler_replay(ctx, obj):
+    r = V.run_handler_scenario(obj["seed"])
+    print(json.dumps(r["violations"], indent=1)[:3000])
+    for v in r["violations"]:
+        ctx.violation("replay: " + v["what"][:600], dict(engine="V", seed=obj["seed"]))
+    ctx.coverage.update(dict(evaluations=1, distinct_nontrivial=1, samples=[r["script_samples"]]))
+
+
+HANDLER_NOTE = (TRUSTED + "Nushell evaluation is an oracle: the theorems hold for every closure; the correspondence samples "
+                "closures from a script DSL. The delivered stream is taken from the store dump (frames of the handler's "
+                "context after its resume point, in id order): that the real subscription delivers exactly that is C02/C03.")
+
+REGISTRY["C14"] = dict(
+    prop_file="Props/C14.v", engine="V", run=handler_run("C14"), replay=handler_replay,
+    level_text="Coq (for every closure, configuration and delivered stream): the closure is invoked on a subsequence of the "
+               "stream (once each, in order), on EVERY delivered frame while active except its own output and early "
+               "registration traffic, never on its own output - so nothing it emits can be fed back to it - and each "
+               "invocation starts from the environment the previous one returned. Tie: scenarios on the real server; the "
+               "observed stream is replayed through the extracted model and must reproduce the handler's appended frames.",
+    level_note=HANDLER_NOTE, assumptions=["the stream delivered to a handler is the context-scoped follow of C02/C03"])
+REGISTRY["C15"] = dict(
+    prop_file="Props/C15.v", engine="V", run=handler_run("C15"), replay=handler_replay,
+    level_text="Coq (for every closure): every emitted frame carries the handler id and the handler's context whatever the "
+               "script asked; one invocation emits its buffered appends in call order, then the return value on "
+               "<name><suffix> with the configured TTL, all stamped with the triggering frame id; a failing closure emits "
+               "nothing but <name>.unregistered with the error and stops. Tie: as C14 (contents are read back from CAS).",
+    level_note=HANDLER_NOTE, assumptions=["meta passed to a buffered .append is a record (Nushell enforces the declared shape)"])
+REGISTRY["C16"] = dict(
+    prop_file="Props/C16.v", engine="V", run=handler_run("C16", extra=announce_probe), replay=handler_replay,
+    level_text="Coq (for every closure): a newer .register/.unregister of its name stops an instance without invoking it, "
+               "with exactly one dispatcher-made <name>.unregistered (handler id, triggering frame id, error flag iff closure "
+               "error) as its last output; nothing is processed after a stop. The announce-after-subscribe ordering holds "
+               "by construction after fix e263c2d and is re-tested on the real code on every run with the sync point "
+               "handler.serve.enter stretched (a frame appended on sight of .registered must be processed). Tie: as C14 "
+               "with re-registrations, unregisters, invalid scripts, several names and contexts.",
+    level_note=HANDLER_NOTE, assumptions=["at most one instance per (context, name) follows from: a new .register is delivered to the old instance (same context), which stops"])
